@@ -94,6 +94,8 @@ Then write a demonstration: a small standalone Python script {wt}/demo_{name}.py
 
 Finally make sure {wt}/patch_{name}.diff holds the final `git diff -- vivarium` (only changes under vivarium/, not the demo).
 
+Separately: if, while exploring, you meet behaviour of the UNMODIFIED tree that already seems to violate the property (not one of the known weaknesses listed above), do not build your change on it, but do report it at the end under a heading 'Pre-existing', with a minimal script (saved as {wt}/preexisting_{name}.py) that shows it on the unmodified code. Only report what you actually ran.
+
 Report back briefly: (1) the diff, (2) the path of the demo script, (3) what exactly the change needs in order to manifest, (4) the test-suite summary line with the change applied and the demo result with and without the change. Leave the change APPLIED in the worktree when you finish.'''
     os.makedirs('/tmp/prompts', exist_ok=True)
     open('/tmp/prompts/%s.txt' % name, 'w').write(text)
